@@ -2,8 +2,8 @@
    the value solve returns for the solver's model, and (small grids) the set of
    projected models against the specification [shape]. *)
 From Coq Require Import ZArith List Bool String Arith.
-From FrameModel Require Import Num.QcTac PB.Expr PB.Cnf PB.Amo PB.Robdd PB.Codify PB.Sat Cases.CmpC07
-  RectSearch.Coords RectSearch.Names RectSearch.Encode RectSearch.Shapes.
+From FrameModel Require Import Num.QcTac PB.Expr PB.Cnf PB.Amo PB.Robdd PB.Codify PB.Sat Cases.Cmp Cases.CmpC07
+  RectSearch.Coords RectSearch.Names RectSearch.Encode RectSearch.Registry RectSearch.Shapes RectSearch.SelectBox.
 Import ListNotations.
 Local Open Scope nat_scope.
 
@@ -22,7 +22,8 @@ Record c08_obs := mkObs8 {
   o_sat : bool;                  (* the solver found a model *)
   o_true : list var;             (* the variables that are 1 in SATManager.model *)
   o_cost1 : Z;                   (* first component of the returned pair *)
-  o_rects : list (option box)
+  o_rects : list (option box);
+  o_vtable : list var            (* SATManager.vtable[1:]: the registered names in order, names mapped *)
 }.
 
 Definition coords_check (inp : problem) (o : c08_obs) : bool :=
@@ -40,14 +41,30 @@ Definition result_eqb (r : result) (sat : bool) (c1 : Z) (rs : list (option box)
 Definition c08_check (mode : border_mode) (inp : problem) (k : nat) (factor ratio : Qc) (bound : Z)
     (m0 : memory) (o : c08_obs) : bool :=
   coords_check inp o &&
-  match encode mode inp k factor ratio bound m0 with
+  (* [encode_reg] = [encode] with the variable registrations (Registry.encode_reg_encode) *)
+  match encode_reg mode inp k factor ratio bound m0 with
   | None => o_keyerror o
   | Some (_, s) =>
       negb (o_keyerror o) && leqb (leqb lit_eqb) (clauses s) (o_clauses o) &&
+      leqb var_eqb (vtable s) (o_vtable o) &&
       result_eqb (result_of inp k factor ratio
                     (if o_sat o then Some (fun v => existsb (var_eqb v) (o_true o)) else None))
                  (o_sat o) (o_cost1 o) (o_rects o)
   end.
+
+(* the quality solve returns (one float division: 2 roundings allowed; exact when the model says 0),
+   and the theoretical area main hands to solve *)
+Definition c08_quality_check (inp : problem) (factor ratio : Qc) (tba : Z) (sat : bool) (trues : list var)
+    (q : Qc) : bool :=
+  Z.eqb tba (theoretical_area inp factor) &&
+  let qm := quality_of inp factor ratio tba (if sat then Some (fun v => existsb (var_eqb v) trues) else None) in
+  qclose 2 qm qm q.
+
+(* rect_io.select_box on the entries get_alloc produced: the list of cells, exactly *)
+Definition cell_eqb (a b : cell) : bool :=
+  Qceqb (cx1 a) (cx1 b) && Qceqb (cy1 a) (cy1 b) && Qceqb (cx2 a) (cx2 b) && Qceqb (cy2 a) (cy2 b) && Qceqb (cp a) (cp b).
+Definition c08_select_check (sel : string) (al : list arect) (got : problem) : bool :=
+  leqb cell_eqb (select_box sel al) got.
 
 (* ---- the projected models of a small instance against the specification ---- *)
 Definition sigma_bits (M : list (list bool)) (i b : nat) : bool := nth b (nth i M []) false.
